@@ -179,6 +179,11 @@ pub fn spec(id: &str, tier: Tier) -> Option<CheckSpec> {
         }
         _ => return None,
     };
+    let mut spec = spec;
+    // Jobs that run the real binary wait up to 90 s for it.
+    if spec.jobs.iter().any(|j| j.0.starts_with("proc:")) {
+        spec.hang_secs = spec.hang_secs.max(120);
+    }
     Some(spec)
 }
 
